@@ -44,3 +44,9 @@ claim("C01", "exception/result monitor over the enumerated product operation x C
       "grid-compatible GeoBox operands; thorough: the full product over 11x11 geometry kinds (exhaustive: true). Mismatch must raise ValueError/CRSMismatchError before any "
       "result exists; equal CRSs (any spelling) must give the shapely result tagged with the first operand's CRS.",
       _TB + " Shapely/GEOS is trusted for the reference result; a generator (split) is consumed before judging.", "DESIGN.md 5/C01")
+
+claim("C07", "post-condition monitors on Geometry.to_crs / Geometry.segmented / densify (aliases rebound) with the oracle's own pyproj transformer and plain-numpy edge geometry; there-and-back differential",
+      "Every call is judged: vertices compared one by one with a pyproj transformer built by the oracle (calibrated bit-identical; tolerance 1e-12 relative), type / part / ring / vertex "
+      "order preserved, same-CRS returns the same object, no-CRS refuses; densification: no edge longer than the resolution, original vertices an in-order subsequence, added vertices on "
+      "their edge (1e-9 relative), area and length unchanged; round trips bounded by 1e-6 m (1e-2 m with a datum shift). 11 geometry kinds, edges in 16 directions incl. on the axes.",
+      _TB + " PROJ is shared between library and oracle (a PROJ bug is invisible); empty LineString/Polygon inputs are outside the statement's kinds and only counted.", "DESIGN.md 5/C07")
